@@ -435,6 +435,15 @@ func Run(c *core.Ctx, replay string) (*core.Result, error) {
 			add(absprog.MinimalBare(id, te), false)
 		}
 		id++
+		// fields the Dart side passes through untouched (gomacro-opaque) still travel under the JSON key Go uses
+		add(&absprog.Prog{ID: id, Decls: []absprog.Decl{
+			{K: "struct", Name: "Inner", Fields: []absprog.Field{{Name: "A", Type: absprog.Basic("int")}}},
+			{K: "struct", Name: "Envelope", Fields: []absprog.Field{
+				{Name: "ID", Type: absprog.Basic("int"), Tag: `json:"id"`},
+				{Name: "Payload", Type: absprog.Ref("", "Inner"), Tag: `json:"payload" gomacro-opaque:"dart"`},
+				{Name: "Plain", Type: absprog.Ref("", "Inner"), Tag: `gomacro-opaque:"dart,typescript"`},
+				{Name: "Note", Type: absprog.Basic("string"), Tag: `json:"note,omitempty"`}}}}}, false)
+		id++
 		add(&absprog.Prog{ID: id, Decls: []absprog.Decl{{K: "struct", Name: "Blob", Fields: []absprog.Field{{Name: "Raw", Type: absprog.Slice(absprog.Basic("byte"))}, {Name: "N", Type: absprog.Basic("int")}}}}}, false)
 	}
 	var out workIn
